@@ -25,6 +25,9 @@ type c15Hist struct {
 	NoTimeout  bool     `json:"no_timeout"` // serve with timeout 0: must never arm, never stop by itself
 	Socketpair bool     `json:"socketpair"`
 	Reuse      bool     `json:"reuse"` // afterwards serve the same object once more, untimed after timed and vice versa
+	// Prelude: before the history, the same object serves a first period that is ended by Shutdown while two
+	// connections are still open (they drain afterwards)
+	Prelude bool `json:"prelude"`
 }
 
 func runC15Hist(r *fw.Run, h *c15Hist) []string {
@@ -36,6 +39,38 @@ func runC15Hist(r *fw.Run, h *c15Hist) []string {
 	lr.svc = svc
 	log := newEvLog(r)
 	svc.RegisterInterface(&ScriptDisp{Name: "org.example.script", Desc: defaultDesc("org.example.script"), Log: log})
+	if h.Prelude {
+		L0 := newCtlListener(r)
+		svc.VerifSetListener(L0)
+		ctx0, cancel0 := context.WithCancel(context.Background())
+		done0 := make(chan error, 1)
+		go func() { done0 <- svc.DoListen(ctx0, 0) }()
+		lr0 := &lifeRun{r: r, h: &c14Hist{Socketpair: h.Socketpair}, svc: svc, L: L0}
+		if L0.WaitParked(lifeBound) {
+			var cs []*CtlConn
+			for k := 0; k < 2; k++ {
+				if c := lr0.connect(true); c != nil {
+					roundTrip(c.client, lifeBound)
+					cs = append(cs, c)
+				}
+			}
+			svc.Shutdown()
+			time.Sleep(500 * time.Microsecond)
+			for _, c := range cs {
+				c.client.Close()
+				lr0.waitClosed(c, "client closed it after Shutdown")
+			}
+		}
+		select {
+		case <-done0:
+		case <-time.After(20 * time.Second):
+			L0.Close()
+		}
+		cancel0()
+		if len(lr0.viol) > 0 {
+			return lr0.viol
+		}
+	}
 	L := newCtlListener(r)
 	lr.L = L
 	svc.VerifSetListener(L)
@@ -299,7 +334,7 @@ func runC15(r *fw.Run) {
 	hs := c15Enumerate(r.Pick(5, 7))
 	var hists []*c15Hist
 	for i, s := range hs {
-		hists = append(hists, &c15Hist{Steps: s, Socketpair: i%3 == 0, Reuse: i%4 == 0})
+		hists = append(hists, &c15Hist{Steps: s, Socketpair: i%3 == 0, Reuse: i%4 == 0, Prelude: i%6 == 1})
 		if i%5 == 0 {
 			hists = append(hists, &c15Hist{Steps: s, NoTimeout: true, Socketpair: i%2 == 0, Reuse: i%10 == 0})
 		}
